@@ -172,6 +172,7 @@ func ProcessState[S any](ctx context.Context, handler func(context.Context, S) e
 	}
 	verifhook.Y("state.lock.pre")
 	pMu.Lock()
+	defer verifhook.Y("state.unlock.post")
 	defer pMu.Unlock()
 	defer verifhook.Y("state.unlock.pre")
 	verifhook.Y("state.lock.post")
